@@ -1,7 +1,7 @@
 package parser
 
 import (
-	"math"
+	"fmt"
 	"math/big"
 	"strconv"
 	"strings"
@@ -237,25 +237,25 @@ func parseRatio(source string, range_ Range) *RatioLiteral {
 	}
 }
 
-// TODO actually handle big int
 func ParsePercentageRatio(source string) (*big.Int, *big.Int, error) {
 	str := strings.TrimSuffix(source, "%")
-	num, err := strconv.ParseUint(strings.Replace(str, ".", "", -1), 0, 64)
-	if err != nil {
-		return nil, nil, err
+
+	// digits are always read in base 10 (whatever their number and leading zeros)
+	num, ok := new(big.Int).SetString(strings.Replace(str, ".", "", -1), 10)
+	if !ok || num.Sign() == -1 {
+		return nil, nil, fmt.Errorf("invalid percentage: %s", source)
 	}
 
-	var denominator uint64
+	floatingDigits := 0
 	split := strings.Split(str, ".")
 	if len(split) > 1 {
-		// TODO verify this is always correct
-		floatingDigits := len(split[1])
-		denominator = (uint64)(math.Pow10(2 + floatingDigits))
-	} else {
-		denominator = 100
+		floatingDigits = len(split[1])
 	}
 
-	return big.NewInt(int64(num)), big.NewInt(int64(denominator)), nil
+	// 10^(2+floatingDigits)
+	denominator := new(big.Int).Exp(big.NewInt(10), big.NewInt(int64(2+floatingDigits)), nil)
+
+	return num, denominator, nil
 }
 
 func parsePercentageRatio(source string, range_ Range) *RatioLiteral {
